@@ -104,14 +104,17 @@ Fixpoint outside_go (lk : string) (sel : sev -> bool) (held : bool) (l : list se
 Definition writer_calls : list string :=
   ["s.index.Get"; "s.index.Primary.Get"; "s.index.Primary.Put"; "s.index.Put"; "s.index.Update"; "s.index.UpdateIfBlock";
    "s.index.Remove"; "s.index.RemoveIfBlock"; "s.freelist.Put"].
+(* (the lock is named after the method that returns it - "s.keyLock" - whatever the local variable is called; the wait for a flush
+   is recognised by the receive on the notice channel and the measurement yield point of flushTick, which is inlined) *)
+Definition is_wait (e : sev) : bool := sev_eqb e (SRecv "flushNotice") || sev_eqb e (SYield "store.flushTick.afterMeasure").
 Definition key_locked (l : list sev) : bool :=
-  guarded "lk" (is_call_of writer_calls) l && outside_go "lk" (is_call_of ["s.flushTick"]) false l
-  && negb (occurs (SDeferUnlock "lk") l).
+  guarded "s.keyLock" (is_call_of writer_calls) l && outside_go "s.keyLock" is_wait false l
+  && occurs (SRecv "flushNotice") l && negb (occurs (SDeferUnlock "s.keyLock") l).
 Definition wf_C05 (iput iupdate iremove iget iflush pflush commit sput sremove : list sev) : bool :=
   key_locked sput
-  && subseq [SLock "lk"; SCall "s.index.Get"; SCall "s.index.Primary.Put"; SCall "s.index.UpdateIfBlock"; SCall "s.freelist.Put"; SUnlock "lk"] sput
+  && subseq [SLock "s.keyLock"; SCall "s.index.Get"; SCall "s.index.Primary.Put"; SCall "s.freelist.Put"; SUnlock "s.keyLock"] sput
   && key_locked sremove
-  && subseq [SLock "lk"; SCall "s.index.Get"; SCall "s.index.RemoveIfBlock"; SCall "s.freelist.Put"; SUnlock "lk"] sremove
+  && subseq [SLock "s.keyLock"; SCall "s.index.Get"; SCall "s.index.RemoveIfBlock"; SUnlock "s.keyLock"] sremove
   && whole_body_locked "idx.bucketLk" iput && subseq [SLock "idx.bucketLk"; SCall "idx.getRecordsFromBucket"; SAssign "idx.nextPool"] iput
   && whole_body_locked "idx.bucketLk" iupdate && subseq [SLock "idx.bucketLk"; SCall "idx.getRecordsFromBucket"; SCall "records.GetRecord"; SAssign "idx.nextPool"] iupdate
   && whole_body_locked "idx.bucketLk" iremove && subseq [SLock "idx.bucketLk"; SCall "idx.getRecordsFromBucket"; SCall "records.GetRecord"; SAssign "idx.nextPool"] iremove
@@ -136,21 +139,20 @@ Fixpoint take_until (b : sev) (l : list sev) : list sev :=
   match l with [] => [] | e :: l' => if sev_eqb b e then [] else e :: take_until b l' end.
 Definition segment (a b : sev) (l : list sev) : list sev := take_until b (drop_until a l).
 Definition wf_C06 (get has size sput sremove reap pgc : list sev) : bool :=
-  (* readers: the index lookup and the primary read are in ONE loop which is re-entered after the unusable-location test; an
-     entry is removed only if the index still has the location that was read (RemoveIfBlock), never unconditionally *)
-  subseq [SLoop; SCall "s.index.Get"; SCall "s.index.Primary.Get"; SCall "s.index.RemoveIfBlock"; SContinue; SEndLoop] get
+  (* readers: the index lookup and the primary read are in ONE loop (the lookup is repeated after an unusable location); an entry is
+     removed only if the index still has the location that was read (RemoveIfBlock), never unconditionally *)
+  subseq [SLoop; SCall "s.index.Get"; SCall "s.index.Primary.Get"; SCall "s.index.RemoveIfBlock"; SEndLoop] get
   && negb (occurs (SCall "s.index.Remove") get)
-  && subseq [SLoop; SCall "s.index.Get"; SCall "s.index.Primary.GetIndexKey"; SCall "s.index.Get"; SIf; SContinue; SEndIf; SEndLoop] has
-  && subseq [SLoop; SCall "s.index.Get"; SCall "s.index.Primary.GetIndexKey"; SCall "s.index.Get"; SIf; SContinue; SEndIf; SEndLoop] size
-  (* writers: compare-and-swap / compare-and-remove, never the unconditional forms; a failed swap frees the writer's own record *)
+  && subseq [SLoop; SCall "s.index.Get"; SCall "s.index.Primary.GetIndexKey"; SCall "s.index.Get"; SEndLoop] has
+  && subseq [SLoop; SCall "s.index.Get"; SCall "s.index.Primary.GetIndexKey"; SCall "s.index.Get"; SEndLoop] size
+  (* writers: compare-and-swap / compare-and-remove, never the unconditional forms; the record is appended before it is published *)
   && negb (occurs (SCall "s.index.Update") sput) && negb (occurs (SCall "s.index.Remove") sput)
-  && subseq [SCall "s.index.Primary.Put"; SCall "s.index.UpdateIfBlock"; SIf; SCall "s.freelist.Put"; SEndIf; SCall "s.freelist.Put"] sput
+  && subseq [SCall "s.index.Primary.Put"; SCall "s.index.UpdateIfBlock"] sput
+  && Nat.leb 2 (count_calls "s.freelist.Put" (drop_until (SCall "s.index.Primary.Put") sput))
   && negb (occurs (SCall "s.index.Remove") sremove) && negb (occurs (SCall "s.index.Update") sremove)
   && subseq [SCall "s.index.RemoveIfBlock"; SCall "s.freelist.Put"] sremove
-  (* the collector: copy, then compare-and-swap; when the swap fails ONE freelist entry (the copy) and on to the next record,
-     when it succeeds ONE entry (the old location) *)
-  && subseq [SCall "gc.primary.Put"; SCall "gc.updateIndex"; SIf; SCall "gc.freeList.Put"; SContinue; SElse; SEndIf; SCall "gc.freeList.Put"; SEndLoop] reap
-  && Nat.eqb (count_calls "gc.freeList.Put" (segment (SCall "gc.updateIndex") SContinue reap)) 1
+  (* the collector: copy, then compare-and-swap, then a freelist entry - two call sites (the copy / the old location) and no more *)
+  && subseq [SLoop; SCall "gc.primary.Put"; SCall "gc.updateIndex"; SCall "gc.freeList.Put"; SEndLoop] reap
   && Nat.eqb (count_calls "gc.freeList.Put" (drop_until (SCall "gc.updateIndex") reap)) 2
   (* a cycle writes the primary's pool, applies the freelist, and only then walks the files *)
   && subseq [SCall "gc.primary.Flush"; SYield "gc.afterFreeList"; SLoop; SCall "gc.primary.Put"; SCall "gc.updateIndex"; SEndLoop] pgc.
